@@ -28,8 +28,32 @@ ALIASES = {'AbortFailed': 'Abort', 'AbortVoted': 'Abort', 'CheckCurrentQ': 'Chec
            'NewOidQ': 'NewOid', 'PackQ': 'Pack', 'PushQ': 'Push', 'PopQ': 'Pop'}
 # concrete storage kind -> kind of the model ('temp': the demo storage creates its own changes, a MappingStorage)
 KINDS = {'file': 'file', 'mapping': 'mapping', 'fileblob': 'file', 'temp': 'mapping'}
-AS_CODE = dict(TidFromChangesOnly=True, UndoUncreates=True, OidProbeByLoad=True, PackAsCode=True)
-REPAIRED = dict(TidFromChangesOnly=False, UndoUncreates=False, OidProbeByLoad=False, PackAsCode=False)
+AS_CODE = dict(TidFromChangesOnly=True, UndoUncreates=True, OidProbeByLoad=True, PackAsCode=True, BlobStoreSkipsBaseCheck=True)
+REPAIRED = dict(TidFromChangesOnly=False, UndoUncreates=False, OidProbeByLoad=False, PackAsCode=False,
+                BlobStoreSkipsBaseCheck=False)
+# Blob records: what a connection stores for a ZODB.blob.Blob (class pickle + None state).  The model value of a blob
+# oid lives in the blob file: one JSON line (+ padding); every record of a blob oid goes through storeBlob and is
+# read back through loadBlob / openCommittedBlobFile of the top storage.
+BLOB_RECORD = b'\x80\x03cZODB.blob\nBlob\nq\x00.\x80\x03N.'
+
+
+def blob_capable(bkind, ckind):
+    """both layers keep blob files: a FileStorage with a blob directory below, and one - or the demo storage's own
+    changes, which it wraps in a BlobStorage on first use (_blobify) - on top"""
+    return bkind == 'fileblob' and ckind in ('fileblob', 'temp')
+
+
+def blob_bytes(v, pad=0):
+    import json
+    return json.dumps(cz.val_to_py(v)).encode() + b'\n' + b'b' * pad
+
+
+def blob_value(b):
+    import json
+    return cz.py_to_val(json.loads(b.split(b'\n', 1)[0].decode()))
+
+
+BLOB_CAUSE = 'storeBlob-skips-merged-serial-check'
 
 
 class ReplayError(Exception):
@@ -54,6 +78,11 @@ class DemoReplayer:
         self.calls = 0
         self.nfiles = 0
         self.lower_checks = 0
+        self.blob_oids = set(consts.get('BlobOids', ()))
+        if self.blob_oids and not blob_capable(bkind, ckind):
+            raise ReplayError('blob oids on a flavour whose layers do not all keep blobs: %s/%s' % (bkind, ckind))
+        self.events = set()      # blob paths taken (for the vacuity count)
+        self._blobs = {}         # (oid, serial) -> value read in this round of queries
 
     # ---- lifecycle ----
     @property
@@ -77,9 +106,12 @@ class DemoReplayer:
         return FileStorage(os.path.join(d, 'Data.fs'), **kw)
 
     def open(self):
+        import tempfile
         clock.CLOCK.set(1)
         shutil.rmtree(self.dir, ignore_errors=True)
         os.makedirs(self.dir)
+        self._tempdir = tempfile.tempdir
+        tempfile.tempdir = self.dir          # DemoStorage._blobify makes its blob directory with tempfile.mkdtemp
         s = self._new_raw(self.bkind)
         self.raw, self.stack, self.snaps, self.issued = [s], [s], [], [set()]
 
@@ -94,6 +126,8 @@ class DemoReplayer:
                 s.close()
             except Exception:
                 pass
+        import tempfile
+        tempfile.tempdir = getattr(self, '_tempdir', None)
         shutil.rmtree(self.dir, ignore_errors=True)
 
     def _txn(self, m='m0'):
@@ -103,6 +137,10 @@ class DemoReplayer:
 
     def data(self, o, d):
         d = norm(d)
+        if o in self.blob_oids:
+            if d['refs']:
+                raise ReplayError('a blob record carries no references')
+            return BLOB_RECORD
         return cz.make_record(self.cls[o], d['v'], d['refs'], pad=self.opts.get('pad', 0))
 
     # ---- the layers below the top ----
@@ -129,7 +167,29 @@ class DemoReplayer:
             n += 1
         out.update(txns=n, last=s.lastTransaction().hex(), len=len(s), digest=h.hexdigest(),
                    in_txn=s.tpc_transaction() is not None)
+        bd = self.blob_dir_of(i)
+        if bd:
+            hb = hashlib.sha1()
+            nb = 0
+            for root, dirs, files in sorted(os.walk(bd)):
+                dirs.sort()
+                for fn in sorted(files):
+                    path = os.path.join(root, fn)
+                    with open(path, 'rb') as f:
+                        hb.update(os.path.relpath(path, bd).encode() + b'|' + f.read() + b'|')
+                    nb += 1
+            out.update(blob_files=nb, blob_digest=hb.hexdigest())
         return out
+
+    def blob_dir_of(self, i):
+        """the blob directory of the storage holding layer i+1 (None: it keeps no blobs)"""
+        s = self.raw[i]
+        if getattr(s, 'blob_dir', None):
+            return s.blob_dir
+        if i >= 1 and i < len(self.stack):
+            fsh = getattr(self.stack[i].changes, 'fshelper', None)        # the BlobStorage a demo storage wrapped its changes in
+            return getattr(fsh, 'base_dir', None)
+        return None
 
     def check_lower(self):
         out = []
@@ -167,7 +227,10 @@ class DemoReplayer:
                 st.tpc_begin(self.t)
             elif action == 'Store':
                 c, o, serial, d = args
-                st.store(p64(o), self.tids.real(serial), self.data(o, d), '', self.t)
+                if o in self.blob_oids:
+                    self._store_blob(st, o, self.tids.real(serial), d, self.t)
+                else:
+                    st.store(p64(o), self.tids.real(serial), self.data(o, d), '', self.t)
             elif action == 'CheckCurrent':
                 c, o, serial = args
                 st.checkCurrentSerialInTransaction(p64(o), self.tids.real(serial), self.t)
@@ -188,7 +251,9 @@ class DemoReplayer:
             elif action == 'Wrong':
                 call = str(args[0])
                 other = self._txn()
-                if call == 'store':
+                if call == 'store' and 0 in self.blob_oids:
+                    self._store_blob(st, 0, z64, {'v': ('v1',), 'refs': frozenset()}, other)
+                elif call == 'store':
                     st.store(p64(0), z64, self.data(0, {'v': ('v1',), 'refs': frozenset()}), '', other)
                 elif call == 'vote':
                     st.tpc_vote(other)
@@ -275,6 +340,61 @@ class DemoReplayer:
                     out.append('%s%r: spec %s=%r, implementation %r' % (action, tuple(norm(args)), k, res[k], v))
         return out
 
+    def _store_blob(self, st, o, serial, d, txn):
+        """what Connection._store_objects does for a Blob: the bytes are in a file in the storage's temporary
+        directory, storeBlob takes the record and the file"""
+        tmp = st.temporaryDirectory()
+        if not os.path.isdir(tmp):
+            os.makedirs(tmp)
+        self.nfiles += 1
+        fn = os.path.join(tmp, 'zv-%d-%d.blob-tmp' % (os.getpid(), self.nfiles))
+        with open(fn, 'wb') as f:
+            f.write(blob_bytes(norm(d)['v'], self.opts.get('pad', 0)))
+        try:
+            st.storeBlob(p64(o), serial, self.data(o, d), fn, '', txn)
+            self.events.add('storeBlob')
+        finally:
+            if os.path.exists(fn):
+                os.remove(fn)            # (a refused store leaves the client's file where it was)
+            self._note_blobify()
+
+    def _note_blobify(self):
+        """the demo storage wrapped its own changes in a BlobStorage (first blob call: store, load or temporary directory)"""
+        if len(self.stack) > 1 and self.ckind == 'temp' and self.st.changes is not self.raw[-1]:
+            self.events.add('blobify')
+
+    def _blob_datum(self, oid, serial):
+        """the value of the blob revision (oid, serial) as the top storage serves it, through both calls"""
+        key = (oid, serial)
+        if key in self._blobs:
+            return self._blobs[key]
+        st = self.st
+        try:
+            fn = st.loadBlob(oid, serial)
+            with open(fn, 'rb') as f:
+                b = f.read()
+            with st.openCommittedBlobFile(oid, serial) as f:
+                b2 = f.read()
+            v = blob_value(b) if b == b2 else ('loadBlob and openCommittedBlobFile differ',)
+            self._note_blobify()
+            top = self.blob_dir_of(len(self.raw) - 1)
+            if len(self.stack) > 1:
+                here = top and os.path.abspath(fn).startswith(os.path.abspath(top).rstrip(os.sep) + os.sep)
+                self.events.add('loadBlob-from-changes' if here else 'loadBlob-from-base')
+        except KeyError:
+            v = ('no blob file',)
+        self._blobs[key] = d = {'v': v, 'refs': frozenset()}
+        return d
+
+    def _datum(self, oid, data, serial):
+        if data is not None and data == BLOB_RECORD:
+            if u64(oid) not in self.blob_oids:
+                return {'v': ('blob record',), 'refs': frozenset()}
+            return self._blob_datum(oid, serial)
+        if u64(oid) in self.blob_oids and data is not None:
+            return {'v': ('not a blob record',), 'refs': frozenset()}
+        return cz.datum_of(data)
+
     def _monitor_oid(self, oid):
         """What the real storages say about the id just handed out (the verdict is TLC's `collides`; for an id
         outside the model's universe - a random draw - there is nothing to collide with: checked here)."""
@@ -300,27 +420,28 @@ class DemoReplayer:
         except KeyError:               # POSKeyError is a KeyError
             return KeyError
 
-    def _rev(self, data, serial, end):
-        return {'k': 'rev', 'd': cz.datum_of(data), 'serial': self.tids.model(serial), 'end': self.tids.model(end)}
+    def _rev(self, data, serial, end, oid=None):
+        return {'k': 'rev', 'd': self._datum(oid, data, serial), 'serial': self.tids.model(serial), 'end': self.tids.model(end)}
 
     def observe(self, mo, layer_lens):
         st = self.st
         T = self.tids
         top_file = self.kind_of(len(self.stack)) == 'file'
         obs = {'lb': {}, 'cur': {}, 'ser': {}, 'gt': {}, 'revs': {}}
+        self._blobs = {}
         for o in mo['lb']:
             oid = p64(o)
             r = self._q(st.load, oid, '')
-            obs['cur'][o] = {'k': 'keyerr'} if r is KeyError else self._rev(r[0], r[1], None)
+            obs['cur'][o] = {'k': 'keyerr'} if r is KeyError else self._rev(r[0], r[1], None, oid)
             row = {}
             for t in sorted(mo['lb'][o], reverse=True):
                 r = self._q(st.loadBefore, oid, T.real(t))
-                row[t] = {'k': 'keyerr'} if r is KeyError else {'k': 'none'} if r is None else self._rev(*r)
+                row[t] = {'k': 'keyerr'} if r is KeyError else {'k': 'none'} if r is None else self._rev(r[0], r[1], r[2], oid)
             obs['lb'][o] = row
             row = {}
             for t in mo['ser'][o]:
                 r = self._q(st.loadSerial, oid, T.real(t))
-                row[t] = {'k': 'keyerr'} if r is KeyError else self._rev(r, T.real(t), None)
+                row[t] = {'k': 'keyerr'} if r is KeyError else self._rev(r, T.real(t), None, oid)
             obs['ser'][o] = row
             r = self._q(st.getTid, oid)
             obs['gt'][o] = {'k': 'keyerr'} if r is KeyError else {'k': 'tid', 'serial': T.model(r)}
@@ -359,13 +480,23 @@ class DemoReplayer:
         for i, txn in enumerate(it):
             recs = []
             for r in txn:
-                recs.append({'oid': u64(r.oid), 'd': cz.datum_of(r.data), 'dtxn': T.model(r.data_txn) if r.data_txn else 0})
+                recs.append({'oid': u64(r.oid), 'd': self._datum(r.oid, r.data, txn.tid), 'dtxn': T.model(r.data_txn) if r.data_txn else 0})
                 if r.tid != txn.tid:
                     recs[-1]['tid_mismatch'] = r.tid.hex()
             if self._layer_kind(i, bounds) != 'file':
                 recs.sort(key=lambda x: x['oid'])
             out.append({'tid': T.model(txn.tid), 'status': txn.status,
                         'meta': meta_name(txn.user, txn.description, txn.extension), 'recs': tuple(recs)})
+        return tuple(out)
+
+    def _one_blob_per_txn(self, it):
+        out = []
+        for t in it:
+            recs = list(t['recs'])
+            for j, r in enumerate(recs):
+                if r['oid'] in self.blob_oids and any(x['oid'] == r['oid'] for x in recs[j + 1:]):
+                    recs[j] = dict(r, d={'v': ('superseded in the same transaction',), 'refs': frozenset()})
+            out.append(dict(t, recs=tuple(recs)))
         return tuple(out)
 
     @staticmethod
@@ -423,6 +554,10 @@ class DemoReplayer:
             bounds.append((acc, self.kind_of(n + 1)))
         mo['iter'] = tuple(dict(t, recs=tuple(sorted(t['recs'], key=lambda x: x['oid'])))
                            if self._layer_kind(i, bounds) != 'file' else t for i, t in enumerate(mo['iter']))
+        if self.blob_oids:
+            # a transaction has one blob file per oid: of several records for a blob oid only the last one's value exists
+            mo['iter'] = self._one_blob_per_txn(mo['iter'])
+            real['iter'] = self._one_blob_per_txn(real['iter'])
         # projection of the printed iterator: the tids listed from each start on, in the order listed
         tids = [t['tid'] for t in mo['iter']]
         mo['iter_from'] = {t: tuple(x for x in tids if x >= t) for t in sorted(set(tids))}
@@ -438,12 +573,13 @@ class DemoReplayer:
 
 def consts(bkind, ckind, NOid=2, AtomVals=('v1', 'v2'), RefSets='NoRefs', Metas=('m0',), MaxBase=2, MaxTxn=3, MaxRecs=2, MaxClock=2,
            K=16, Cls='MCCls', Client=('c1',), MaxUndo=2, MaxLayers=2, MaxNewOid=2, MaxPack=1, PrintObs=False,
-           mode=None):
+           BlobOids=(), mode=None):
     if K <= MaxBase + MaxTxn + 2:
         K = 64
     c = dict(BaseKind=bkind, ChangesKind=ckind, NOid=NOid, AtomVals=tuple(AtomVals), RefSets=RefSets, Metas=tuple(Metas),
              MaxBase=MaxBase, MaxTxn=MaxTxn, MaxRecs=MaxRecs, MaxClock=MaxClock, K=K, Cls=Cls, Client=tuple(Client),
-             MaxUndo=MaxUndo, MaxLayers=MaxLayers, MaxNewOid=MaxNewOid, MaxPack=MaxPack, PrintObs=PrintObs)
+             MaxUndo=MaxUndo, MaxLayers=MaxLayers, MaxNewOid=MaxNewOid, MaxPack=MaxPack, PrintObs=PrintObs,
+             BlobOids=tuple(BlobOids))
     c.update(AS_CODE if mode is None else mode)
     return c
 
@@ -465,8 +601,9 @@ def tla_consts(c):
          'Client': '{' + ', '.join(c['Client']) + '}', 'Cls': '<- ' + c['Cls']}
     for n in ('MaxBase', 'MaxTxn', 'MaxRecs', 'MaxClock', 'K', 'MaxUndo', 'MaxLayers', 'MaxNewOid', 'MaxPack'):
         k[n] = c[n]
-    for n in ('PrintObs', 'TidFromChangesOnly', 'UndoUncreates', 'OidProbeByLoad', 'PackAsCode'):
-        k[n] = b(c[n])
+    for n in ('PrintObs', 'TidFromChangesOnly', 'UndoUncreates', 'OidProbeByLoad', 'PackAsCode', 'BlobStoreSkipsBaseCheck'):
+        k[n] = b(c.get(n, AS_CODE.get(n)))
+    k['BlobOids'] = '{' + ', '.join(str(o) for o in c.get('BlobOids', ())) + '}'
     k['Temporary'] = b(c['ChangesKind'] == 'temp')
     return k
 
@@ -542,6 +679,18 @@ def replay_behaviour(job):
                     result['genuine'].append({'cause': 'new_oid-reissues-uncreated-oid', 'step': i,
                                               'prefix': result['sig'][:i + 1],
                                               'detail': ['new_oid() with _next_oid=%d returned oid %d' % (args[0], res['oid'])] + rp.monitor[-2:]})
+            if name == 'Store' and res.get('lost') and not any(g['cause'] == BLOB_CAUSE for g in result['genuine']):
+                # the real storeBlob accepted the record as the transcription does, and TLC says that the serial the
+                # writer named is not the current revision of base \o changes (store() raises ConflictError here)
+                result['genuine'].append({'cause': BLOB_CAUSE, 'step': i, 'prefix': result['sig'][:i + 1],
+                                          'detail': ['storeBlob(oid %d, serial %d) was accepted; the current revision through the demo '
+                                                     'storage is %r' % (args[1], args[2], (real or {}).get('cur', {}).get(args[1]))]})
+            if name == 'Store' and len(layers) > 1 and args[1] in rp.blob_oids:
+                if res['out'] == 'ConflictError':
+                    where = 'changes' if args[2] in [t['tid'] for t in layers[-1]] else 'base' if args[2] else 'new'
+                    tags.add('storeBlob-conflict(%s serial)' % where)
+                else:
+                    tags.add('storeBlob-ok')
             dev = norm(step['state']['dev'])
             if dev['cause'] != 'none' and not any(g['cause'] == dev['cause'] for g in result['genuine']):
                 # the real storage answered every query as the transcription does, and TLC says that these
@@ -549,6 +698,7 @@ def replay_behaviour(job):
                 result['genuine'].append({'cause': dev['cause'], 'step': i, 'prefix': result['sig'][:i + 1],
                                           'detail': _dev_detail(dev, real, rp, layers)})
         result['lower_checks'] = rp.lower_checks
+        tags.update(e for e in rp.events if e != 'storeBlob')
     finally:
         rp.close()
     result['actions'] = dict(actions)
